@@ -1,12 +1,28 @@
 (* C05 — Leaf values survive get/set through JSON and postcard unchanged.
-   Only pinned statements, [exact] proofs and [Print Assumptions].
+   Only pinned statements, [exact] proofs and [(* non-vacuity of the composed statement: { a: u8 = 5, m: { gain: i16 = -3, on: bool } } read and
+   written back through the name key "m" *)
+Definition ex_tree_t : node := NHet HStruct (Named [[97]; [109]]) [(no_attrs, NLeaf KLeaf); (no_attrs, NLeaf KLeaf)].
+Definition ex_m_ty : lty := TStruct [([103; 97; 105; 110], TInt I16); ([111; 110], TBool)].
+Definition ex_tree_v : value tleaf :=
+  VProd [VLeaf (TInt U8, LInt 5%Z); VLeaf (ex_m_ty, LArr [LInt (-3)%Z; LBool true])].
+Example C05_ex_tree :
+  run wr_json (fun _ => true) (fun _ => CbOk None) OSer ex_tree_t ex_tree_v (KIter [KStr [109]]) =
+    (ROk 1, ex_tree_v, [EvRead (ex_m_ty, LArr [LInt (-3)%Z; LBool true])]) /\
+  has_ty ex_m_ty (LArr [LInt (-3)%Z; LBool true]) = true /\
+  jenc_t ex_m_ty (LArr [LInt (-3)%Z; LBool true]) =
+    [123; 34; 103; 97; 105; 110; 34; 58; 45; 51; 44; 34; 111; 110; 34; 58; 116; 114; 117; 101; 125] /\
+  run wr_json (fun _ => true) (fun _ => CbOk None) ODe ex_tree_t ex_tree_v (KIter [KStr [109]]) =
+    (ROk 1, ex_tree_v, [EvWrite (ex_m_ty, LArr [LInt (-3)%Z; LBool true])]).
+Proof. vm_compute. repeat split. Qed.
+
+Print Assumptions].
    Codec models: coq/Ser.v (type-directed JSON and postcard encoders / decoders over the value
    universe of Codec.v: integers of every width, bool, unit, Option, arrays, tuples, strings of
    plain characters incl. non-ASCII, string tags, serde unit-variant enums, nested serde structs);
    tree level: coq/Codec_tree.v over Tree.run.  Floats are outside the model (DESIGN.md: decided
    on the implementation only). *)
 From Coq Require Import List NArith ZArith Bool.
-From MC Require Import Str Codec Ser Ser_proofs Tree Tree_proofs Codec_tree.
+From MC Require Import Str Codec Ser Ser_proofs Tree Tree_proofs Codec_tree Compose_proofs.
 Import ListNotations.
 Local Open Scope N_scope.
 
@@ -46,6 +62,28 @@ Proof. exact parse_render_int. Qed.
 Theorem C05_get_set_identity : forall (L : Type) (wr : L -> leafres L) (rd : L -> bool) (orc : oracle) t v k d v1 lg,
   run wr rd orc OSer t v k = (ROk d, v1, lg) -> faithful L wr lg -> snd (fst (run wr rd orc ODe t v k)) = v.
 Proof. exact get_set_identity'. Qed.
+(* ... instantiated with the JSON and postcard codec models: leaves hold (type, value) pairs, set
+   decodes the very bytes get produced for the leaf (postcard: followed by any other bytes).  For
+   every tree type, state, key and callback behaviour: if the read succeeds on a well-typed leaf,
+   writing the bytes back by the same key leaves the whole tree exactly as it was *)
+Theorem C05_wr_json_unfold : forall x : tleaf, wr_json x =
+  match json_set (fst x) (jenc_t (fst x) (snd x)) with
+  | SetOk v _ => LOk (fst x, v) | SetTrailing _ => LInvalid | SetErr => LInner end.
+Proof. reflexivity. Qed.
+Theorem C05_wr_postcard_unfold : forall rest (x : tleaf), wr_postcard rest x =
+  match postcard_set (fst x) (penc (fst x) (snd x) ++ rest) with
+  | Some (v, _) => LOk (fst x, v) | None => LInner end.
+Proof. reflexivity. Qed.
+Theorem C05_tree_json_identity : forall (rd : tleaf -> bool) (orc : oracle) t v k d v1 lg,
+  run wr_json rd orc OSer t v k = (ROk d, v1, lg) ->
+  (forall x, In (EvRead x) lg -> has_ty (fst x) (snd x) = true) ->
+  snd (fst (run wr_json rd orc ODe t v k)) = v.
+Proof. exact tree_json_get_set_identity. Qed.
+Theorem C05_tree_postcard_identity : forall rest (rd : tleaf -> bool) (orc : oracle) t v k d v1 lg,
+  run (wr_postcard rest) rd orc OSer t v k = (ROk d, v1, lg) ->
+  (forall x, In (EvRead x) lg -> has_ty (fst x) (snd x) = true) ->
+  snd (fst (run (wr_postcard rest) rd orc ODe t v k)) = v.
+Proof. exact tree_postcard_get_set_identity. Qed.
 (* writing a value and reading it back by the same key reads what the codec wrote *)
 Theorem C05_set_get_value : forall (L : Type) (wr : L -> leafres L) (rd : L -> bool) (orc : oracle) t v k,
   SG L (run wr rd orc ODe t v k) (fun v' => run wr rd orc OSer t v' k).
@@ -86,4 +124,8 @@ Print Assumptions C05_utf8_roundtrip.
 Print Assumptions C05_decimal_roundtrip.
 Print Assumptions C05_get_set_identity.
 Print Assumptions C05_set_get_value.
+Print Assumptions C05_wr_json_unfold.
+Print Assumptions C05_wr_postcard_unfold.
+Print Assumptions C05_tree_json_identity.
+Print Assumptions C05_tree_postcard_identity.
 Print Assumptions C05_SG_unfold.
